@@ -170,19 +170,19 @@ def _sample_peaks(S):
     return [(float(A), float(r0) * S._scale, float(w), [float(c) for c in cn]) for (A, r0, w, cn) in S._peaks]
 
 
-def cl_sample_image(name, n, sigma, temperature, tol, pixels):
-    """SampleImage(n, name): func is the stated sum of rings; abel (transform(tol)) is the projection of func
-    within the tolerance-derived bound (exactly for 'Gaussian' and 'O2')."""
+def _sample_make(name, n, sigma, temperature):
     from abel.tools.analytical import SampleImage
     kw = {}
     if sigma is not None:
         kw['sigma'] = sigma
     if name.lower() in ('ominus', 'o-'):
         kw['temperature'] = temperature
-    S = SampleImage(n, name, **kw)
-    ok, d = _grid_ok(S, n, (n - 1) / 2, True)
-    if not ok:
-        return ok, d
+    return SampleImage(n, name, **kw)
+
+
+def _sample_reference(S, pixels):
+    """Per pixel: (func by definition, projection of func by quadrature, bound per unit tol, amplitude scale)."""
+    n = S.n
     peaks = _sample_peaks(S)
     o2 = S.name == 'O2'
 
@@ -194,18 +194,13 @@ def cl_sample_image(name, n, sigma, temperature, tol, pixels):
 
     def f(R, C):
         return sum(A * ring(R, r0, w) * sum(c * C**k for k, c in enumerate(cn)) for (A, r0, w, cn) in peaks)
-    ab = S.transform(tol)
-    if S.func.shape != (n, n) or ab.shape != (n, n):
-        return False, 'shapes'
     c0 = (n - 1) / 2
     amax = max(abs(A) * sum(abs(c) for c in cn) for (A, r0, w, cn) in peaks)
+    out = []
     for (i, j) in pixels:
         row, col = i - c0, j - c0
         r = np.hypot(row, col)
         cs = -row / r if r else 0.0
-        ref_f = f(r, cs)
-        if abs(S.func[i, j] - ref_f) > 1e-11 * amax:
-            return False, 'func[%d,%d] = %r, sum of rings = %r' % (i, j, float(S.func[i, j]), ref_f)
         z = r * cs
         tot = 0.0
         bound = 0.0
@@ -219,14 +214,38 @@ def cl_sample_image(name, n, sigma, temperature, tol, pixels):
             pts = [np.sqrt(t * t - r * r) for t in (r0 - ext, r0 - 3 * w, r0 - w, r0, r0 + w, r0 + 3 * w) if t > r]
             tot += _los(lambda R: A * ring(R, r0, w) * ang(R), r, ymax, pts)
             sw = w / np.sqrt(2)
-            bound += abs(A) * sum(abs(c) for c in cn) * 1.08 * tol * (2 * np.sqrt(max((r0 + 4.5 * sw)**2 - r * r, 0.0)) + 4 * w)
-        if o2 or S.name == 'Gaussian':
-            allowed = RTOL_EXACT * (abs(tot) + amax)
-        else:
-            allowed = bound + RTOL_EXACT * (abs(tot) + amax)
+            bound += abs(A) * sum(abs(c) for c in cn) * 1.08 * (2 * np.sqrt(max((r0 + 4.5 * sw)**2 - r * r, 0.0)) + 4 * w)
+        out.append((f(r, cs), tot, bound, amax))
+    return out
+
+
+def _sample_abel_ok(S, ab, tol, pixels, ref, what='abel'):
+    exact = S.name in ('O2', 'Gaussian')
+    for (i, j), (ref_f, tot, bound, amax) in zip(pixels, ref):
+        allowed = RTOL_EXACT * (abs(tot) + amax) + (0.0 if exact else bound * tol)
         if abs(ab[i, j] - tot) > allowed:
-            return False, 'abel[%d,%d] = %r, projection of func = %r (|diff| = %.3g, allowed %.3g)' % (
-                i, j, float(ab[i, j]), tot, abs(ab[i, j] - tot), allowed)
+            return False, '%s[%d,%d] = %r, projection of func = %r (|diff| = %.3g, allowed %.3g for tol = %g)' % (
+                what, i, j, float(ab[i, j]), tot, abs(ab[i, j] - tot), allowed, tol)
+    return True, ''
+
+
+def cl_sample_image(name, n, sigma, temperature, tol, pixels):
+    """SampleImage(n, name): func is the stated sum of rings; abel (transform(tol)) is the projection of func
+    within the tolerance-derived bound (exactly for 'Gaussian' and 'O2')."""
+    S = _sample_make(name, n, sigma, temperature)
+    ok, d = _grid_ok(S, n, (n - 1) / 2, True)
+    if not ok:
+        return ok, d
+    ref = _sample_reference(S, pixels)
+    ab = S.transform(tol)
+    if S.func.shape != (n, n) or ab.shape != (n, n):
+        return False, 'shapes'
+    for (i, j), (ref_f, tot, bound, amax) in zip(pixels, ref):
+        if abs(S.func[i, j] - ref_f) > 1e-11 * amax:
+            return False, 'func[%d,%d] = %r, sum of rings = %r' % (i, j, float(S.func[i, j]), ref_f)
+    ok, d = _sample_abel_ok(S, ab, tol, pixels, ref)
+    if not ok:
+        return ok, d
     # symmetric layout of the unfolded image
     if not (np.array_equal(S.func, S.func[::-1]) and np.array_equal(S.func, S.func[:, ::-1])
             and np.array_equal(ab, ab[::-1]) and np.array_equal(ab, ab[:, ::-1])):
@@ -234,5 +253,50 @@ def cl_sample_image(name, n, sigma, temperature, tol, pixels):
     return True, ''
 
 
+DEFAULT_TOL = 4.8e-3
+
+
+def cl_sample_history(name, n, sigma, temperature, ops, pixels):
+    """A sequence of operations on ONE SampleImage object (reads of .abel / .func, transform(tol) with tolerances in
+    any order, repeated, decreasing, increasing): every returned and every stored abel meets the tolerance last
+    requested (the default 4.8e-3 when .abel is read first), and equals what a fresh object returns for that tolerance;
+    func is never changed."""
+    S = _sample_make(name, n, sigma, temperature)
+    ref = _sample_reference(S, pixels)
+    func0 = S.func.copy()
+    fresh = {}
+    last = None
+    for step, op in enumerate(ops):
+        if op[0] == 'func':
+            if not np.array_equal(S.func, func0):
+                return False, 'step %d: func changed' % step
+            continue
+        if op[0] == 'read':
+            ab = S.abel
+            if last is None:
+                last = DEFAULT_TOL
+            what = 'step %d (.abel after tol %g)' % (step, last)
+        elif op[0] == 'transform':
+            last = float(op[1])
+            ab = S.transform(last)
+            what = 'step %d (transform(%g))' % (step, last)
+            if not np.array_equal(S.abel, ab):
+                return False, what + ': .abel differs from the returned array'
+        else:
+            raise ValueError(op)
+        ok, d = _sample_abel_ok(S, ab, last, pixels, ref, what + ' abel')
+        if not ok:
+            return ok, d
+        if last not in fresh:
+            fresh[last] = _sample_make(name, n, sigma, temperature).transform(last)
+        if not np.array_equal(ab, fresh[last]):
+            k = np.unravel_index(int(np.argmax(np.abs(ab - fresh[last]))), ab.shape)
+            return False, what + ': differs from transform(%g) of a fresh object (max |diff| = %.3g at %s)' % (
+                last, float(np.max(np.abs(ab - fresh[last]))), k)
+        if not np.array_equal(S.func, func0):
+            return False, what + ': func changed'
+    return True, ''
+
+
 CLAUSES.update(step=cl_step, gaussian=cl_gaussian, poly_wrapper=cl_poly_wrapper, profile=cl_profile,
-               transform_pair=cl_transform_pair, sample_image=cl_sample_image)
+               transform_pair=cl_transform_pair, sample_image=cl_sample_image, sample_history=cl_sample_history)
